@@ -1,5 +1,6 @@
 import Brax.Lemmas.KinVel
 import Brax.Lemmas.ScanLevels
+import Brax.Lemmas.ScanTypes
 /-!
 # C01 — forward kinematics matches the reference engine for every model and pose
 
@@ -166,6 +167,19 @@ theorem scanTree_levels_eq_recursion {β γ : Type} (f : Option β → γ → β
     (dflt : γ) (dfltY : β) (hlen : ps.length = as.length) (hwf : ParentsWF ps) :
     scanTreeLevels f ps as dflt dfltY = scanFwd f ps as :=
   scanTreeLevels_eq_scanFwd f ps as dflt dfltY hlen hwf
+
+/-- **Layer B, stage 2 (restated from `Lemmas/ScanTypes`).**  `scan.link_types` as coded — links grouped by
+type in order of first appearance, the flat `q`/`qd`/dof index lists of each type gathered and reshaped to
+rows, the per-link function applied to every row, the per-type outputs concatenated and reordered through
+the output kind's index list — computes exactly the per-link slicing `linkSlices` followed by the per-link
+function, for every string of link types, every per-link function `g` whose output width is the kind's
+width table `wo` (`'l'`: 1, `'q'`: `Q_WIDTHS`, `'d'`: `QD_WIDTHS`), and inputs of the right total widths. -/
+theorem scanLinkTypes_coded_eq_slices {α β : Type} (g : LinkIn α → List β) (wo : LinkType → Nat)
+    (ts : List LinkType) (q qd : List α) (ds : List (DofP α)) (dq : α) (dd : DofP α) (dy : β)
+    (hq : q.length = (ts.map LinkType.qWidth).sum) (hqd : qd.length = (ts.map LinkType.qdWidth).sum)
+    (hds : ds.length = (ts.map LinkType.qdWidth).sum) (hg : ∀ l, (g l).length = wo l.typ) :
+    scanLinkTypesCoded g wo ts q qd ds dq dd dy = ((linkSlices ts q qd ds).map g).flatten :=
+  scanLinkTypesCoded_eq g wo ts q qd ds dq dd dy hq hqd hds hg
 
 /-! ## non-vacuity: a concrete system and state satisfying `KinOK`
 
